@@ -3944,6 +3944,8 @@ def _may_change_item(
         if isinstance(call.func, ast.Name) and call.func.id in harmless_functions:
             continue
         if isinstance(call.func, ast.Attribute) and _root_name(call.func.value) in mapping_names:
+            if call.func.attr in {"keys", "values", "items", "get", "copy"}:
+                continue
             return True
         for arg in itertools.chain(call.args, (keyword.value for keyword in call.keywords)):
             if _root_name(arg) in mapping_names and not isinstance(arg, ast.Subscript):
